@@ -363,7 +363,7 @@ func genMavenManifest(rt *rapid.T, u []Pkg, mode string) Manifest {
 		}
 		mused[i] = true
 		g, a := split(u[i].Name)
-		d := MDep{G: g, A: a, V: lowVersion(rt, l, &u[i])}
+		d := MDep{G: g, A: a, V: genReq(rt, l, "maven", &u[i], lowVersion(rt, l, &u[i]), true)}
 		if parent != nil && chance(rt, l+".inparent", 1, 3) {
 			parent.Mgmt = append(parent.Mgmt, d)
 		} else {
@@ -397,6 +397,30 @@ func genMavenManifest(rt *rapid.T, u []Pkg, mode string) Manifest {
 				}
 			}
 			pf.Deps = append(pf.Deps, MDep{G: g, A: a, V: v})
+		}
+		if chance(rt, "profnoid", 1, 5) {
+			pf.ID = "" // the <id> is optional
+		}
+		if chance(rt, "profmgmt", 1, 3) {
+			i := rapid.IntRange(0, len(u)-1).Draw(rt, "profmgmt.pkg")
+			g, a := split(u[i].Name)
+			pf.Mgmt = append(pf.Mgmt, MDep{G: g, A: a, V: lowVersion(rt, "profmgmt", &u[i])})
+		}
+		pom.Profiles = append(pom.Profiles, pf)
+	}
+	if mode == "fix" && chance(rt, "fixprofile", 1, 6) {
+		// a profile that is not activated: its own dependencyManagement and/or dependencies
+		pf := Profile{ID: "extra"}
+		if chance(rt, "profnoid", 1, 5) {
+			pf.ID = ""
+		}
+		i := rapid.IntRange(0, len(u)-1).Draw(rt, "fixprofile.pkg")
+		g, a := split(u[i].Name)
+		d := MDep{G: g, A: a, V: lowVersion(rt, "fixprofile", &u[i])}
+		if chance(rt, "fixprofile.mgmt", 2, 3) {
+			pf.Mgmt = append(pf.Mgmt, d)
+		} else {
+			pf.Deps = append(pf.Deps, d)
 		}
 		pom.Profiles = append(pom.Profiles, pf)
 	}
@@ -557,6 +581,7 @@ func genVulns(rt *rapid.T, w *World, conc bool) []VulnSpec {
 			}
 		}
 		v.Severity = draw(rt, l+".sev", "", "", "high", "low")
+		v.Withdrawn = chance(rt, l+".withdrawn", 1, 8)
 		out = append(out, v)
 	}
 	return out
@@ -605,6 +630,9 @@ func genOpts(rt *rapid.T, w *World, maxUpgrades []int, plain, conc bool) Opts {
 	if w.Mode == "update" {
 		o.IgnoreDev = chance(rt, "ignoredev", 1, 4)
 		return o
+	}
+	if plain && !conc && w.Sys == "maven" && w.Mode == "fix" {
+		o.MavenManagement = chance(rt, "mavenmanagement", 1, 4)
 	}
 	if plain {
 		if conc && len(w.Vulns) > 1 && chance(rt, "hasexplicit", 2, 5) {
